@@ -583,7 +583,9 @@ def c20(case):
     for y, v in p.log:
         for c, l, h in zip(y, case['lo'], case['hi']):
             j = (Fr(c) - Fr(l)) / (Fr(h) - Fr(l)) * 2 ** m - Fr(1, 2)
-            if abs(j - round(j)) > Fr(1, 10 ** 6) or not (0 <= round(j) < 2 ** m):
+            # allowance: 1e-6 of a cell plus the binary64 rounding of a coordinate of this magnitude, expressed in cells
+            tol = Fr(1, 10 ** 6) + 4 * Fr(2) ** -52 * max(abs(Fr(l)), abs(Fr(h))) * 2 ** m / (Fr(h) - Fr(l))
+            if abs(j - round(j)) > tol or not (0 <= round(j) < 2 ** m):
                 fails.append('trial coordinate %r is not lower+(j+1/2)(upper-lower)/2^%d (j=%.6f)' % (c, m, float(j))); break
         if fails:
             break
